@@ -113,7 +113,7 @@ class Plane:
         :rtype: bool
 
         """
-        return abs(np.dot(self.n, p) - self.d) < tol
+        return abs(np.dot(self.n, p) + self.d) < tol
     
     def __str__(self):
         """
